@@ -13,7 +13,7 @@ import iolib, gens
 from iolib import RunDir, run_cli, sig, shim_env, read_trace, le32
 from vlib import Oracle, hx, md5
 
-THEOREMS = ["C14_exit0_sound", "C14_rm_order", "C14_rm_order_compress", "C14_multi_exit0", "C14_truncation", "C14_truncation_exit", "C14_pipe_no_exception", "C14_lz4f_st_concrete_sound", "C14_lz4f_st_fresh_sound", "C14_hint_within_frame_refuted"]
+THEOREMS = ["C14_exit0_sound", "C14_rm_order", "C14_rm_order_compress", "C14_multi_exit0", "C14_truncation", "C14_truncation_exit", "C14_pipe_no_exception", "C14_lz4f_st_concrete_sound", "C14_lz4f_st_fresh_sound"]
 CORRESPONDENCE = ["IoLz4f.lz4f_st_run (concrete LZ4IO_decompressLZ4F loop over Model.FrameD) == lz4 -d -c / -t of the ST build under the stdio tracer: sequence of fread (request, return) pairs, fwrite sizes, "
                   "exit code when the loop exits the process (62/66/67/68), decoded bytes; and == Io.lz4f_st (abstract step over frame_decode) on status, output and bytes left in the source",
                   "Io.decompress (ST model) == lz4 -d/-t of the ST build under the same input, seekable flag and I/O fault: exit status class, output on exit 0, source removal",
@@ -789,7 +789,7 @@ def run_case(st, case):
         st["rd"].clean()
     return acc.out()
 
-F21_OPEN = True     # set to False once lib/lz4frame.c (dstage_storeCBlock hint) is repaired: the cases then are plain regressions
+F21_OPEN = False    # set to False once lib/lz4frame.c (dstage_storeCBlock hint) is repaired: the cases then are plain regressions
 def classify(r):
     if F21_OPEN and "bytes beyond the end of the frame" in str(r.get("what", "")):
         return "F21"       # LZ4F hint 4 bytes too large with block checksums: ST lz4 -d loses the start of what follows the frame
